@@ -100,6 +100,9 @@ func (r *ComDoc) readShortSector(shortSector SecID, buf []byte) (int, error) {
 	bigSectorIndex := int(shortSector) * r.ShortSectorSize / r.SectorSize
 	bigSectorID := r.Files[r.rootStorage].NextSector
 	for i := 0; i < bigSectorIndex; i++ {
+		if bigSectorID < 0 || int(bigSectorID) >= len(r.SAT) {
+			return 0, errors.New("short-sector stream is truncated")
+		}
 		bigSectorID = r.SAT[bigSectorID]
 	}
 	// translate to a file position
